@@ -60,7 +60,7 @@ class LogicalSolver:
         with UnitEnvironment(self.env.units):
             operators = {
                 'par': OperatorPar,        # should be the last of parenthesis operators
-                'eq': OperatorEq, 'ne': OperatorNe,
+                'eq': CustomEq, 'ne': CustomNe,
                 'not': CustomNot,          # needs to be after OperatorNe
                 'le': OperatorLe, 'ge': OperatorGe,
                 'lt': OperatorLt, 'gt': OperatorGt,
@@ -72,6 +72,22 @@ class LogicalSolver:
 
 class CustomNot(OperatorNot):
     symbol: str = Sign.NEGATE
+
+class CustomEq(OperatorEq):
+
+    def operate_binary(self, tokens):
+        left, right = tokens.get_left(), tokens.get_right()
+        # == of DIP datatypes returns a plain (numpy) bool
+        tokens.put_left(BooleanType(bool(left == right)))
+
+class CustomNe(OperatorNe):
+
+    def operate_binary(self, tokens):
+        left, right = tokens.get_left(), tokens.get_right()
+        result = left != right
+        if not isinstance(result, BooleanType):
+            result = BooleanType(bool(result))
+        tokens.put_left(result)
 
 class CustomAnd(OperatorAnd):
     
